@@ -17,7 +17,10 @@ for d in sys.argv[1:]:
         rc, out = sh(f"git -C {REPO} apply {pd}")
         if rc != 0:
             print(pd, "does not apply"); continue
-        rc, out = sh("go build ./... && go test -vet=off -count=1 ./...", cwd=REPO)
+        if os.environ.get("BENIGN_SKIP_SUITE"):
+            rc = 0
+        else:
+            rc, out = sh("go build ./... && go test -vet=off -count=1 ./...", cwd=REPO)
         suite = rc == 0
         def one(p):
             vd = f"/tmp/{TAG}-verif-{p}"
